@@ -843,7 +843,8 @@ def run_for(rep, tier, seed, pid):
     rnd = random.Random(seed)
     work = tlc.scratch_dir("obs_")
     try:
-        ntr, steps = ((2500 if pid == "C09" else 1200), 14) if tier == "quick" else (30000, 22)
+        # (C12 records carry every mutation since the previous read: its thorough tier is sized accordingly)
+        ntr, steps = ((2500 if pid == "C09" else 1200), 14) if tier == "quick" else ((6000 if pid == "C12" else 20000), 22)
         trace = os.path.join(work, "trace.ndjson")
         n = 0
         sample = None
